@@ -10,7 +10,35 @@ use zbus::{object_server::Interface, Connection};
 
 use crate::world::{Link, World};
 
-pub(crate) const PATHS: [&str; 4] = ["/", "/a", "/a/b", "/c"];
+/// The path universe. Two universes exist (selected process-wide with `select_paths`, never while
+/// histories are running): 0 = {/, /a, /a/b, /c} (root, parent/child, unrelated sibling) and
+/// 1 = {/, /a/b, /a/b/d, /a/bc} (a never-registered intermediate node /a, three levels, and a
+/// sibling whose name has the other's as a string prefix). Index 0 is the root in both.
+pub(crate) const PATH_SETS: [[&str; 4]; 2] = [["/", "/a", "/a/b", "/c"], ["/", "/a/b", "/a/b/d", "/a/bc"]];
+static PATH_SET: std::sync::atomic::AtomicUsize = std::sync::atomic::AtomicUsize::new(0);
+pub(crate) fn select_paths(set: usize) {
+    assert!(set < PATH_SETS.len());
+    PATH_SET.store(set, std::sync::atomic::Ordering::SeqCst);
+}
+pub(crate) fn selected_paths() -> usize {
+    PATH_SET.load(std::sync::atomic::Ordering::SeqCst)
+}
+pub(crate) struct PathSet;
+pub(crate) const PATHS: PathSet = PathSet;
+impl PathSet {
+    pub fn len(&self) -> usize {
+        4
+    }
+    pub fn iter(&self) -> std::slice::Iter<'static, &'static str> {
+        PATH_SETS[selected_paths()].iter()
+    }
+}
+impl std::ops::Index<usize> for PathSet {
+    type Output = &'static str;
+    fn index(&self, i: usize) -> &&'static str {
+        &PATH_SETS[selected_paths()][i]
+    }
+}
 pub(crate) const IFACES: [&str; 2] = ["x.v.I1", "x.v.I2"];
 pub(crate) const OM: &str = "org.freedesktop.DBus.ObjectManager";
 pub(crate) const STD: [&str; 3] = [
